@@ -14,6 +14,9 @@
 (*   xfull, outfull   real compact_fc_to_full_fc of x and of out            *)
 (*   fullsym  real full-layout symmetriser applied to xfull                 *)
 (*   back     real inverse converter applied to out                         *)
+(*   direct   (sg) set_tensor_symmetry_PJ called directly; out goes through  *)
+(*            Phonopy.symmetrize_force_constants_by_space_group; sg arrays   *)
+(*            are F Phi F^T, F = supercell lattice (covariant components)    *)
 (*   shown    what show_drift_force_constants printed (value, component)     *)
 (*   exact    every projection had a negligible rounding residual           *)
 (*   bitexact the values are exactly the dyadic rationals logged            *)
@@ -57,6 +60,8 @@ ImplVerdict ==
                    V("ImplImposesSG", ReqImposesSG(S, c, x0, out))
              \cup V("ImplFixesSG", ReqFixesSG(S, c, x0, out))
              \cup V("ImplSGKeeps", ReqSGKeeps(S, c, x0, out))
+             \cup V("ImplSGKeepsPermSym", PermSym(S, x0) => PermSym(S, out))
+             \cup V("ImplSGApiEqDirect", SameArr(o.direct, out))
              \cup V("ImplIdempotent", AgainSame(o, out))
            ELSE {})
      \cup (IF r = "transpose" THEN
@@ -110,6 +115,8 @@ ImplExpandIsDefinition == "ImplExpandIsDefinition" \notin verdict
 ImplImposesSG == "ImplImposesSG" \notin verdict
 ImplFixesSG == "ImplFixesSG" \notin verdict
 ImplSGKeeps == "ImplSGKeeps" \notin verdict
+ImplSGKeepsPermSym == "ImplSGKeepsPermSym" \notin verdict
+ImplSGApiEqDirect == "ImplSGApiEqDirect" \notin verdict
 ImplTransposeIsTranspose == "ImplTransposeIsTranspose" \notin verdict
 ImplTransposeInvolution == "ImplTransposeInvolution" \notin verdict
 ImplDriftUnchanged == "ImplDriftUnchanged" \notin verdict
